@@ -511,12 +511,40 @@ func c16Run(c c16Case, o *hx.Obs) {
 		if c.Hide == "content" {
 			return sep + "content=config"
 		}
+		if c.Hide == "trim" {
+			return sep + "with-defaults=trim"
+		}
 		if c.Hide == "fields" {
 			return sep + "fields=" + url.QueryEscape(strings.Join(keep, ";"))
 		}
 		return sep + "fc.xfields=" + url.QueryEscape(strings.Join(drop, ";"))
 	}
-	if c.Hide != "" {
+	if c.Hide == "trim" {
+		// the answer leaves out the operand where it holds its default; what the expression decides stays the same
+		o.Class("operand trimmed from the answer where it is its default")
+		var trim func(v interface{}) interface{}
+		trim = func(v interface{}) interface{} {
+			switch x := v.(type) {
+			case dm.Tree:
+				out := dm.Tree{}
+				for k, e := range x {
+					if s, isStr := e.(string); k == "z" && isStr && c.Default != "" && s == c.Default {
+						continue
+					}
+					out[k] = trim(e)
+				}
+				return out
+			case []interface{}:
+				out := make([]interface{}, len(x))
+				for i, e := range x {
+					out[i] = trim(e)
+				}
+				return out
+			}
+			return v
+		}
+		want = trim(want).(dm.Tree)
+	} else if c.Hide != "" {
 		o.Class("operand left out of the answer by %s", c.Hide)
 		var strip func(v interface{}) interface{}
 		strip = func(v interface{}) interface{} {
@@ -655,7 +683,7 @@ func c16Gen(t *rapid.T) c16Case {
 		c.Store = rapid.SampledFrom([]string{"", "", "json-reader", "xml-reader"}).Draw(t, "store")
 	}
 	if !c.Edit && c.Placement != "filter" && rapid.IntRange(0, 3).Draw(t, "hide") == 0 {
-		c.Hide = rapid.SampledFrom([]string{"fields", "xfields", "content"}).Draw(t, "hide-by")
+		c.Hide = rapid.SampledFrom([]string{"fields", "xfields", "content", "trim", "trim"}).Draw(t, "hide-by")
 	}
 	if c.Placement == "uses-when" && !c.Edit {
 		c.Mid = rapid.SampledFrom([]string{"", "", "holds", "holds", "fails"}).Draw(t, "mid-when")
@@ -680,7 +708,10 @@ func c16Gen(t *rapid.T) c16Case {
 		return dm.GenValue(t, ty, label, true)
 	}
 	c.Literal = genV("literal")
-	if c.Shape == "" && !c.Edit && c.Placement != "filter" && rapid.IntRange(0, 3).Draw(t, "operand-default") == 0 {
+	if c.Hide == "trim" && (c.Shape != "" || c.Placement == "filter") {
+		c.Hide = ""
+	}
+	if c.Shape == "" && !c.Edit && c.Placement != "filter" && (c.Hide == "trim" || rapid.IntRange(0, 3).Draw(t, "operand-default") == 0) {
 		c.Default = c.Literal
 		if rapid.Bool().Draw(t, "default-other") {
 			c.Default = genV("default")
